@@ -68,6 +68,9 @@ def run_shards(prop, specs, timeout, jobs=NCPU):
                     continue
                 done.append(i)
                 log.close()
+                if os.environ.get('VERIF_SHARD_TIMES'):
+                    print(f'  shard {spec.get("name"):24s} {time.monotonic() - t0:7.1f}s',
+                          flush=True)
                 if os.path.exists(op):
                     with open(op, 'rb') as fd:
                         res.merge(pickle.load(fd))
